@@ -371,6 +371,7 @@ type Stats struct {
 	First       []Sample          `json:"first"`
 	MinHash     []Sample          `json:"minhash"`
 	Violations  []ViolationRec    `json:"violations"`
+	CrashCases  []ViolationRec    `json:"crash_cases"` // unlisted crashes met while evaluating a non-crash property
 	Exhaustive  string            `json:"exhaustive,omitempty"`
 	Done        bool              `json:"done"`
 	NeedRestart bool              `json:"need_restart"`
